@@ -47,7 +47,7 @@ def gen_doc(rng, i, odd=False):
             ops.append(["reopen"])
         else:
             ops.append(["rollover"])
-    return {"id": i, "ratio": rng.choice([0, 1, 2, 2, 4]), "ops": ops, "odd": odd}
+    return {"id": i, "ratio": rng.choice([0, 1, 2, 4, 1000, 1000]), "ops": ops, "odd": odd}
 
 
 def shim_run(doc_path, root, logp, extra_env=None):
